@@ -50,7 +50,7 @@ class Tally(object):
         self.nontrivial = set()  # 8-byte digests of distinct non-trivial cases
         self.stateset = set()  # 8-byte digests of distinct states (when tracked as a set)
         self.samples = []
-        self.violations = []   # dicts: sig, case, detail
+        self.violations = {}   # sig key -> dict(sig, case, detail, count): first case per signature
         self.notes = []
 
     def count(self, name, k=1):
@@ -74,9 +74,15 @@ class Tally(object):
     def violate(self, sig, case, detail):
         """sig: small dict of categorical fields identifying the failing
         (call site / clause / configuration); case: JSON-able replay input"""
-        if len(self.violations) < 400:
-            self.violations.append({'sig': jsonable(sig), 'case': jsonable(case),
-                                    'detail': str(detail)[:2000]})
+        sig = jsonable(sig)
+        key = json.dumps(sig, sort_keys=True)
+        v = self.violations.get(key)
+        if v is None:
+            if len(self.violations) < 5000:
+                self.violations[key] = {'sig': sig, 'case': jsonable(case),
+                                        'detail': str(detail)[:2000], 'count': 1}
+        else:
+            v['count'] += 1
         self.count('violations_raw')
 
     def merge(self, other):
@@ -91,8 +97,12 @@ class Tally(object):
         for s in other.samples:
             if len(self.samples) < 6:
                 self.samples.append(s)
-        room = 2000 - len(self.violations)
-        self.violations.extend(other.violations[:max(room, 0)])
+        for key, v in other.violations.items():
+            mine = self.violations.get(key)
+            if mine is None:
+                self.violations[key] = v
+            else:
+                mine['count'] += v['count']
         self.notes.extend(other.notes)
         return self
 
@@ -178,20 +188,15 @@ def finish(ctx, replay_prefix=None):
     for note in T.notes:
         sys.stderr.write(note + '\n')
     new, seen_known = [], {}
-    seen_sig = set()
-    for v in T.violations:
+    for v in T.violations.values():
         hit = None
         for e in known:
             if _matches(e, prop, v['sig']):
                 hit = e
                 break
         if hit is not None:
-            seen_known.setdefault(hit['id'], [hit, 0])[1] += 1
+            seen_known.setdefault(hit['id'], [hit, 0])[1] += v['count']
             continue
-        key = json.dumps(v['sig'], sort_keys=True)
-        if key in seen_sig:
-            continue
-        seen_sig.add(key)
         new.append(v)
     for fid, (e, k) in sorted(seen_known.items()):
         print("KNOWN-FINDING: property=%s %s [%s; %d case(s) this run]" % (prop, e['what'], fid, k))
@@ -201,8 +206,9 @@ def finish(ctx, replay_prefix=None):
         path = os.path.join(rdir, '%s-%s-%d.json' % (prop, ctx.tier, i))
         with open(path, 'w') as f:
             json.dump({'property': prop, 'sig': v['sig'], 'case': v['case'],
-                       'detail': v['detail']}, f, indent=1, sort_keys=True)
+                       'detail': v['detail'], 'cases_with_this_signature': v['count']}, f, indent=1, sort_keys=True)
         print("VIOLATION property=%s replay=%s" % (prop, path))
+        print("  [%d case(s)] sig=%s" % (v['count'], json.dumps(v['sig'], sort_keys=True)))
         print("  " + v['detail'].replace('\n', '\n  ')[:1500])
     if len(new) > MAX_REPORT:
         print("  (+%d further distinct violation signatures not written out)" % (len(new) - MAX_REPORT))
